@@ -491,6 +491,7 @@ def prop_C17(run):
     rules_asm.block_label_align(run)
     import rules_idx as _ri
     _ri.line_scan_rules(run)                    # a line of an asm block ends outside braces only
+    rules_asm.substituted_line_trimmed(run)     # an empty argument leaves no blank at the end of the line (F80)
     rules_asm.inner_failure_rule(run)          # a block that cannot be encoded fails its candidate only (F79, listed)
     import rules_mpt as _rm
     _rm.alignment_rules(run)                   # labels of a block obey the address-unit rule like labels written in place
